@@ -799,10 +799,12 @@ class C19(Prop):
         "truncatewords with a word count equal to num keeps the ellipsis (literal reading of 'fewer than'); "
         "truncate with len == num and truncate with num < len(ellipsis) are demanded as 'unchanged' and "
         "'ellipsis only' (flags truncate-len-eq-num / truncate-short-num)",
-        "float arithmetic is compared with exact rational arithmetic on the decimal spellings (repr of a float, "
-        "text of a numeric string) at relative tolerance 1e-15 (sum: 1e-12); results outside 1e-290..1e290 are "
-        "skipped; float modulo only for same-sign operands with |a/b| < 1e15; round only >= 4 ulp away from a "
-        "tie; numeric strings carry <= 15 significant digits when not integers",
+        "plus/minus/times/sum/float modulo must return the float nearest to the exact decimal result computed on "
+        "the decimal spellings (repr of a float, text of a numeric string) whenever that result (and every "
+        "partial sum) has <= 28 significant digits, else agree to 1e-15 relative; divided_by with a float operand "
+        "is shown by the docs as float division and is compared at 1e-15 relative; operands/results outside "
+        "1e-290..1e290 are skipped; float modulo only for same-sign operands with |a/b| < 1e15; round only "
+        ">= 4 ulp away from a tie; numeric strings carry <= 15 significant digits when not integers",
         "Liquid equality for the where/reject/find/has/uniq definitions is the language's `==` on scalars "
         "(true != 1, 1 == 1.0)",
     ]
@@ -845,7 +847,9 @@ class C19(Prop):
     def _bad(res: Result, c: dict[str, Any], clause: str, detail: str, law: str | None = None,
              flt: str | None = None, form: str | None = None) -> None:
         bucket = f"{law or c['law']}:{flt or c['filter']}:{form or c['form']}"
-        res.fail(clause, bucket, f"{clause}: {detail} | left={canon(c['left'])[:500]} args={canon(c['args'])[:300]}")
+        shapes = sorted(defect_shapes(c))
+        res.fail(clause, bucket, f"{clause}: {detail} | left={canon(c['left'])[:500]} args={canon(c['args'])[:300]}"
+                 + (f" | known-defect shapes: {shapes}" if shapes else ""))
 
     def _expect(self, res: Result, c: dict[str, Any], clause: str, out: tuple[str, Any], want: Any, **kw: Any) -> bool:
         if out[0] != "ok":
@@ -1050,14 +1054,16 @@ class C19(Prop):
         form, left = c["form"], c["left"]
         flat = M.flatten(left)
         vals = flat if form == "nokey" else [M.prop(i, "k") for i in flat]
-        total = Fraction(0)
+        total = Decimal(0)
         all_int = True
+        digits = 0
         for v in vals:
             if v is None or isinstance(v, dict):
                 continue
             if M.num_kind(v) == "float":
                 all_int = False
-            total += M.exact(v)
+            total, d = M.dec_op("plus", total, M.spelling(v))
+            digits = max(digits, d)
         res.nontrivial = len(vals) >= 2 and (abs(total) > 2**53 or not all_int)
         out = seq_apply(run, "sum", form, "k", left)
         if out[0] != "ok":
@@ -1065,8 +1071,8 @@ class C19(Prop):
         elif all_int:
             if not (isinstance(out[1], int) and not isinstance(out[1], bool) and out[1] == total):
                 self._bad(res, c, "exact integer sum", f"expected {total}, got {out[1]!r}")
-        elif not (isinstance(out[1], float) and M.close(out[1], total, 1e-12)):
-            self._bad(res, c, "decimal sum", f"expected {float(total)!r}, got {out[1]!r}")
+        else:
+            self._float_result(res, c, "decimal sum", out, total, digits)
 
     def _law_first_last(self, c: dict[str, Any], res: Result, run: Run) -> None:
         flt, form, left = c["filter"], c["form"], c["left"]
@@ -1279,26 +1285,38 @@ class C19(Prop):
         back = run.chain(form, q[1], [("times", [args[0]]), ("plus", [r[1]])])
         self._int_result(res, c, "times/plus rebuild the dividend", back, a)
 
-    def _float_result(self, res: Result, c: dict[str, Any], clause: str, out: tuple[str, Any], want: Fraction,
-                      rel: float = 1e-15) -> None:
-        if not (out[0] == "ok" and isinstance(out[1], float) and M.close(out[1], want, rel)):
-            self._bad(res, c, clause, f"expected {float(want)!r} (exact {want}), got {out[0]} {out[1]!r}")
+    def _float_result(self, res: Result, c: dict[str, Any], clause: str, out: tuple[str, Any], want: Decimal,
+                      digits: int) -> None:
+        """Exact decimal result `want`: the float nearest to it is demanded when it has <= 28
+        significant digits (what any Decimal based implementation computes exactly), else 1e-15."""
+        if out[0] == "ok" and isinstance(out[1], float):
+            if digits <= M.IMPL_DIGITS and out[1] == float(want):
+                return
+            if digits > M.IMPL_DIGITS and M.close(out[1], Fraction(want), 1e-15):
+                return
+        self._bad(res, c, clause, f"expected {float(want)!r} (exact {want:.60g}), got {out[0]} {out[1]!r}")
 
     def _law_dec_arith(self, c: dict[str, Any], res: Result, run: Run) -> None:
         flt, form, left, args = c["filter"], c["form"], c["left"], c["args"]
         a, b = M.exact(left), M.exact(args[0])
         res.nontrivial = self._big(left, args[0])
-        if flt == "divided_by":
-            if b == 0 or M.to_num(args[0]) == 0:
-                res.labels.append("dec-arith:zero-divisor-skip")
-                return
-            want = a / b
-        else:
-            want = {"plus": a + b, "minus": a - b, "times": a * b}[flt]
-        if not M.representable(want) or not all(M.representable(M.exact(v)) for v in (left, args[0])):
+        if not all(M.representable(v) for v in (a, b)):
             res.labels.append("dec-arith:range-skip")
             return
-        self._float_result(res, c, f"decimal {flt}", run.apply(form, flt, left, args), want)
+        if flt == "divided_by":
+            # the docs show float division here (20 / 7.0 = 2.857142857142857): stated tolerance
+            if b == 0 or M.to_num(args[0]) == 0 or not M.representable(a / b):
+                res.labels.append("dec-arith:range-skip")
+                return
+            out = run.apply(form, flt, left, args)
+            if not (out[0] == "ok" and isinstance(out[1], float) and M.close(out[1], a / b, 1e-15)):
+                self._bad(res, c, "decimal divided_by", f"expected {float(a / b)!r}, got {out[0]} {out[1]!r}")
+            return
+        want, digits = M.dec_op(flt, M.spelling(left), M.spelling(args[0]))
+        if not M.representable(Fraction(want)):
+            res.labels.append("dec-arith:range-skip")
+            return
+        self._float_result(res, c, f"decimal {flt}", run.apply(form, flt, left, args), want, digits)
 
     def _law_float_mod(self, c: dict[str, Any], res: Result, run: Run) -> None:
         form, left, args = c["form"], c["left"], c["args"]
@@ -1314,7 +1332,8 @@ class C19(Prop):
         elif want != 0 and not M.representable(want):
             res.labels.append("float-mod:range-skip")
         else:
-            self._float_result(res, c, "same-sign float modulo", out, want)
+            wd = M.frac_to_dec(want)
+            self._float_result(res, c, "same-sign float modulo", out, wd, len(wd.normalize(M.HP).as_tuple().digits))
 
     def _law_unary(self, c: dict[str, Any], res: Result, run: Run) -> None:
         flt, form, left = c["filter"], c["form"], c["left"]
